@@ -583,6 +583,25 @@ def run(ctx):
     n_ck = sum(1 for n, v in hl if n == 'set-cookie')
     if n_ck != spec['cookies']:
         ctx.violate('resp.headers', '%d Set-Cookie lines for %d cookies' % (n_ck, spec['cookies']), **sig)
+    # nothing but what the application (or the documented framing) put there
+    allowed = {'content-type', 'content-length', 'set-cookie'}
+    if spec['extra_headers'] >= 1:
+        allowed.add('x-one')
+    if spec['extra_headers'] >= 2:
+        allowed.add('x-multi')
+    strangers = sorted(set(n for n, _v in hl) - allowed)
+    if strangers:
+        ctx.violate('resp.headers', 'response carries header(s) %r the application never set' % (strangers,),
+                    what='unexpected', **sig)
+    if spec['extra_headers'] >= 1 and [v for n, v in hl if n == 'x-one'] != ['first']:
+        ctx.violate('resp.headers', 'X-One: %r' % ([v for n, v in hl if n == 'x-one'],), what='value', **sig)
+    if spec['extra_headers'] >= 2:
+        xm = ','.join(v for n, v in hl if n == 'x-multi').replace(' ', '')
+        if xm != 'a,b':
+            ctx.violate('resp.headers', 'X-Multi: %r' % (xm,), what='value', **sig)
+    ck = sorted(v.split('=', 1)[0] for n, v in hl if n == 'set-cookie')
+    if ck != ['ck%d' % i for i in range(spec['cookies'])]:
+        ctx.violate('resp.headers', 'Set-Cookie names %r' % (ck,), what='cookies', **sig)
     # close count on the stream object
     if spec['stream'] is not None and spec['stream']['kind'] in ('gen', 'iter_obj', 'file', 'file_short',
                                                                  'aiter_obj', 'aiter_none', 'afile',
